@@ -6,6 +6,7 @@ error str raises for the same call), with the receiver unchanged after a raise.
 (2) history search: BFS with the full mutating alphabet (every in-place method and +=, including edge
 arguments that succeed) with the deep consistency probe in every new state.
 """
+import itertools
 from .. import env
 from ..env import AnsiString, AnsiStr, AnsiSetting
 from .. import model, explore, watchdog
@@ -544,6 +545,28 @@ def run_task(task, acc):
                 except Exception as e:  # noqa
                     acc.violation('inconsistent-after-success', case, 'state unreadable: %s' % e, sig='inconsistent:' + op[0])
                     continue
+                # an iterator taken before the operation must still end cleanly afterwards (the value may have shrunk)
+                try:
+                    v3 = build(hh)
+                    it = iter(v3)
+                    if len(v3):
+                        next(it)
+                    from ..hist import apply_op
+                    apply_op(v3, op)
+                    n_left = 0
+                    for _ch in it:
+                        n_left += 1
+                        if n_left > 10000:
+                            raise RuntimeError('iteration does not end')
+                except env.HarnessError:
+                    raise
+                except (TypeError, ValueError):
+                    pass        # the operation itself failed cleanly (handled above)
+                except Exception as e:  # noqa
+                    acc.violation('iterator-after-mutation', {'kind': 'iter', 'hist': hh, 'op': op},
+                                  'an iterator taken before %r raises %s: %s when it is continued afterwards' % (op, type(e).__name__, e),
+                                  sig='iterator-after-mutation:' + op[0])
+                    continue
                 # read transparency: the same operation after every kind of query must lead to the same observable value
                 # (an answer remembered by a query must not survive the mutation that invalidates it)
                 try:
@@ -579,6 +602,20 @@ def run_task(task, acc):
 
 
 def replay(case):
+    if case['kind'] == 'iter':
+        from ..hist import apply_op
+        try:
+            v3 = build(case['hist'])
+            it = iter(v3)
+            if len(v3):
+                next(it)
+            apply_op(v3, case['op'])
+            list(itertools.islice(it, 10001))
+            return []
+        except (TypeError, ValueError):
+            return []
+        except Exception as e:  # noqa
+            return [('iterator-after-mutation', '%s: %s' % (type(e).__name__, e))]
     if case['kind'] == 'read':
         try:
             w, w2 = build(case['hist'] + [case['op']]), build(case['hist'] + [['read'], case['op']])
